@@ -140,6 +140,28 @@ def nexts(I, st, it, fn, line, depth):
                 else:
                     out.append((k2, None, None, s2))
         return out
+    if kind == "zip":
+        ia, ib = it[4]
+        out = []
+        for tag, na, xa, s in nexts(I, st, ia, fn, line, depth):
+            if tag != "item":
+                out.append((tag, _iter("zip", [na, ib]) if na else None, None, s))
+                continue
+            for tag2, nb, xb, s2 in nexts(I, s, ib, fn, line, depth):
+                if tag2 == "item":
+                    out.append(("item", _iter("zip", [na, nb]), Agg("tuple", "", 0, [xa, xb]), s2))
+                else:
+                    out.append((tag2, _iter("zip", [na, nb]) if nb else None, None, s2))
+        return out
+    if kind == "windows":
+        v, k, pos = it[4]
+        lid, hi = v[2], v[4][1][1]
+        if pos[1] + k[1] > hi:
+            return [("done", it, None, st)]
+        return [("item", _iter("windows", [v, k, Const(pos[1] + 1)]), view(lid, pos[1], pos[1] + k[1]), st)]
+    if kind == "opaque":
+        # an iterator the model knows nothing about: every consumer falls back to its opaque treatment
+        raise Undecided("opaque iterator")
     raise Undecided("iterator kind %s" % kind)
 
 
@@ -288,6 +310,8 @@ def m_count(I, st, fn, ce, args, line, depth, dest_ty, may_unwind):
 def m_all_any(is_all):
     def f(I, st, fn, ce, args, line, depth, dest_ty, may_unwind):
         it = args[0]
+        if it[0] == "ref":
+            it = I.load(st, it[1])
         if not is_iter(it):
             return None
 
@@ -365,6 +389,308 @@ def m_len(I, st, fn, ce, args, line, depth, dest_ty, may_unwind):
     return [("ret", Const(v[4][1][1] - v[4][0][1]), st)]
 
 
+# ---- growable vectors, collect, sort, sets, addresses -----------------------------------------------------------------
+def items_of(I, st, v):
+    lid, lo, hi = v[2], v[4][0][1], v[4][1][1]
+    return [I.load(st, elem_loc(lid, k)) for k in range(lo, hi)]
+
+
+def make_list(I, st, items, elem_ty=None):
+    """a fresh modelled list holding `items` (values); returns its view"""
+    lid = st.fresh("vec")
+    I.lists[lid] = len(items)
+    I.oploc[lid] = ("O", lid, ())
+    I.optype[lid] = {"k": "slice", "ty": elem_ty or {"k": "other", "s": "?"}, "s": "[?]"}
+    for k, x in enumerate(items):
+        st.heap[elem_loc(lid, k)] = x
+    return view(lid, 0, len(items))
+
+
+def _vec_at(I, st, a):
+    """(location, view) of the modelled vector a `&mut Vec` argument points to, or (None, None)"""
+    if a[0] != "ref":
+        return None, None
+    v = I.load(st, a[1])
+    if v[0] == "agg" and v[1] == "slice" and v[2] in I.lists:
+        return a[1], v
+    return None, None
+
+
+def m_vec_new(I, st, fn, ce, args, line, depth, dest_ty, may_unwind):
+    if not getattr(I, "model_vecs", False):
+        return None
+    return [("ret", make_list(I, st, []), st)]
+
+
+def _source_items(I, st, src, fn, line, depth):
+    """items of a modelled slice / vector / iterator given as value; None if not modelled.  -> [(items, state)]"""
+    v = as_view(I, st, src)
+    if v is not None:
+        return [(items_of(I, st, v), st)]
+    if is_iter(src):
+        outs = []
+        work = [(src, st, [])]
+        while work:
+            cur, s0, acc = work.pop()
+            if len(acc) > 12:
+                raise Undecided("iterator drain bound")
+            for tag, ni, item, s in nexts(I, s0, cur, fn, line, depth):
+                if tag == "done":
+                    outs.append((acc, s))
+                elif tag == "item":
+                    work.append((ni, s, acc + [item]))
+                else:
+                    outs.append((None, s, tag))
+        return outs
+    return None
+
+
+def _push_event(I, st, vec_arg, item, fn, line, ce):
+    ev = I.emit(st, {"k": "CALL", "def": "std::vec::Vec::<T, A>::push", "base": "std::vec::Vec::<T, A>::push",
+                     "args": [vec_arg, item], "via": ce["def"]}, fn, line)
+    ev["result"] = st.fresh("r")
+
+
+def m_vec_push(I, st, fn, ce, args, line, depth, dest_ty, may_unwind):
+    loc, v = _vec_at(I, st, args[0])
+    if v is None:
+        return None
+    I.store(st, loc, make_list(I, st, items_of(I, st, v) + [args[1]]))
+    return [("ret", UNIT, st)]
+
+
+def m_vec_extend(I, st, fn, ce, args, line, depth, dest_ty, may_unwind):
+    src = args[1]
+    try:
+        got = _source_items(I, st, src, fn, line, depth)
+    except Undecided:
+        got = None
+    if got is None:
+        return None
+    loc, v = _vec_at(I, st, args[0])
+    outs = []
+    for g in got:
+        if len(g) == 3:
+            outs.append((g[2] if g[2] in ("unwind", "cut") else "cut", None, g[1]))
+            continue
+        items, s = g
+        if v is not None:
+            cur = I.load(s, loc)
+            I.store(s, loc, make_list(I, s, items_of(I, s, cur) + list(items)))
+        else:
+            # an unmodelled vector (e.g. the caller's out-parameter): record what is appended, element by element
+            for x in items:
+                _push_event(I, s, args[0], x, fn, line, ce)
+        outs.append(("ret", UNIT, s))
+    return outs
+
+
+def m_collect(I, st, fn, ce, args, line, depth, dest_ty, may_unwind):
+    if not is_iter(args[0]):
+        return None
+    if dest_ty is not None and not (dest_ty.get("k") == "adt" and (dest_ty["path"].endswith("::Vec") or dest_ty["path"].endswith("::Box"))):
+        return None
+    try:
+        got = _source_items(I, st, args[0], fn, line, depth)
+    except Undecided:
+        return None
+    outs = []
+    for g in got:
+        if len(g) == 3:
+            outs.append((g[2] if g[2] in ("unwind", "cut") else "cut", None, g[1]))
+        else:
+            outs.append(("ret", make_list(I, g[1], list(g[0])), g[1]))
+    return outs
+
+
+def addr_of(I, v):
+    """the model address of a pointer-like value that designates a modelled list element (or None)"""
+    A = getattr(I, "addrs", None)
+    if not A:
+        return None
+    loc = None
+    if v[0] == "op":
+        loc = I.oploc.get(v[1])
+    elif v[0] == "ref":
+        loc = v[1]
+    if loc is None or loc[0] != "O" or loc[1] not in A or not loc[2]:
+        return None
+    k = loc[2][0]
+    if not (isinstance(k, str) and k.startswith("[") and k[1:-1].isdigit()):
+        return None
+    if any(p != "*" for p in loc[2][1:]):
+        return None
+    return A[loc[1]][int(k[1:-1])]
+
+
+def m_sort_by_key(I, st, fn, ce, args, line, depth, dest_ty, may_unwind):
+    loc, v = _vec_at(I, st, args[0])
+    if v is None:
+        v = as_view(I, st, args[0])
+        loc = None
+    if v is None:
+        return None
+    lid, lo, hi = v[2], v[4][0][1], v[4][1][1]
+    # keys: the closure applied to a reference to each element; all of them must be model addresses / constants
+    states = [([], st)]
+    for k in range(lo, hi):
+        nxt = []
+        for keys, s in states:
+            for kind, val, s2 in I.call_value(s, args[1], [Ref(elem_loc(lid, k))], fn, line, depth, None, may_unwind):
+                if kind != "ret":
+                    return None
+                key = val[1] if val[0] == "const" and isinstance(val[1], int) else addr_of(I, val)
+                if key is None:
+                    I.emit(s2, {"k": "SORT_KEY_OPAQUE", "key": val}, fn, line)
+                    return None
+                nxt.append((keys + [key], s2))
+        states = nxt
+    outs = []
+    for keys, s in states:
+        items = items_of(I, s, v)
+        order = sorted(range(len(items)), key=lambda i: keys[i])      # stable, ascending: what slice::sort_by_key promises
+        nv = make_list(I, s, [items[i] for i in order])
+        I.emit(s, {"k": "SORTED", "keys": keys, "def": ce["def"]}, fn, line)
+        if loc is not None:
+            I.store(s, loc, nv)
+        elif args[0][0] == "ref":
+            I.store(s, args[0][1], nv)
+        outs.append(("ret", UNIT, s))
+    return outs
+
+
+def m_windows(I, st, fn, ce, args, line, depth, dest_ty, may_unwind):
+    v = as_view(I, st, args[0])
+    if v is None or args[1][0] != "const":
+        return None
+    return [("ret", _iter("windows", [v, args[1], v[4][0]]), st)]
+
+
+def m_zip(I, st, fn, ce, args, line, depth, dest_ty, may_unwind):
+    a, b = args[0], args[1]
+    vb = as_view(I, st, b)
+    if vb is not None:
+        b = _iter("ref", [vb, vb[4][0]])
+    if not (is_iter(a) and is_iter(b)):
+        return None
+    return [("ret", _iter("zip", [a, b]), st)]
+
+
+def m_box_deref(I, st, fn, ce, args, line, depth, dest_ty, may_unwind):
+    """`&Box<[T]>` -> `&[T]` for a modelled boxed slice; anything else keeps its ordinary treatment"""
+    if as_view(I, st, args[0]) is not None:
+        return [("ret", args[0], st)]
+    return None
+
+
+def m_set_new(I, st, fn, ce, args, line, depth, dest_ty, may_unwind):
+    if not getattr(I, "model_vecs", False):
+        return None
+    return [("ret", ("agg", "set", "HashSet", 0, ()), st)]
+
+
+def m_set_insert(I, st, fn, ce, args, line, depth, dest_ty, may_unwind):
+    if args[0][0] != "ref":
+        return None
+    sv = I.load(st, args[0][1])
+    if not (sv[0] == "agg" and sv[1] == "set"):
+        return None
+    x = args[1]
+    key = x[1] if x[0] == "const" else addr_of(I, x)
+    if key is None:
+        raise Undecided("set element %r has no model address" % (x,))
+    I.emit(st, {"k": "SET_INSERT", "key": key}, fn, line)
+    if Const(key) in sv[4]:
+        return [("ret", Const(False), st)]
+    I.store(st, args[0][1], ("agg", "set", "HashSet", 0, sv[4] + (Const(key),)))
+    return [("ret", Const(True), st)]
+
+
+def m_set_contains(I, st, fn, ce, args, line, depth, dest_ty, may_unwind):
+    if args[0][0] != "ref":
+        return None
+    sv = I.load(st, args[0][1])
+    if not (sv[0] == "agg" and sv[1] == "set"):
+        return None
+    x = args[1]
+    if x[0] == "ref":
+        x = I.load(st, x[1])
+    key = x[1] if x[0] == "const" else addr_of(I, x)
+    if key is None:
+        raise Undecided("set element %r has no model address" % (x,))
+    return [("ret", Const(Const(key) in sv[4]), st)]
+
+
+def m_ptr_eq(I, st, fn, ce, args, line, depth, dest_ty, may_unwind):
+    targs = [t for t in ce.get("args", []) if isinstance(t, dict) and t.get("k") not in ("region", "const")]
+    if ce["def"].endswith("ptr::eq") and targs and targs[0].get("k") in ("dyn", "slice", "str"):
+        return None      # wide-pointer equality also compares the vtable / length: not an address comparison
+    a, b = addr_of(I, args[0]), addr_of(I, args[1])
+    if a is None or b is None:
+        return None
+    return [("ret", Const(a == b), st)]
+
+
+def iter_len(it):
+    kind = it[2]
+    if kind in ("ref", "val"):
+        v, pos = it[4]
+        return max(0, v[4][1][1] - pos[1])
+    if kind.startswith("rev:"):
+        return max(0, it[4][2][1] - it[4][1][1])
+    if kind in ("enumerate", "map", "inspect"):
+        return iter_len(it[4][0])
+    if kind == "take":
+        n = iter_len(it[4][0])
+        return None if n is None else min(n, it[4][1][1])
+    if kind == "zip":
+        a, b = iter_len(it[4][0]), iter_len(it[4][1])
+        return None if a is None or b is None else min(a, b)
+    if kind == "windows":
+        v, k, pos = it[4]
+        return max(0, v[4][1][1] - pos[1] - k[1] + 1)
+    return None
+
+
+def m_iter_len(I, st, fn, ce, args, line, depth, dest_ty, may_unwind):
+    it = args[0]
+    if it[0] == "ref":
+        it = I.load(st, it[1])
+    if not is_iter(it):
+        return None
+    n = iter_len(it)
+    if n is None:
+        return None
+    return [("ret", Const(n), st)]
+
+
+def m_find(I, st, fn, ce, args, line, depth, dest_ty, may_unwind):
+    a = args[0]
+    it = I.load(st, a[1]) if a[0] == "ref" else a
+    if not is_iter(it):
+        return None
+
+    def on_item(s, item):
+        r = []
+        for verdict, s2 in _call_pred(I, s, args[1], _tmp_ref(s, item), fn, line, depth):
+            if verdict == "true":
+                r.append(("stop", item, s2))
+            elif verdict == "false":
+                r.append(("go", None, s2))
+            else:
+                r.append((verdict, None, s2))
+        return r
+    out = []
+    for kind, val, s in _drain(I, st, it, fn, line, depth, on_item):
+        if kind == "done":
+            out.append(("ret", _opt(0, []), s))
+        elif kind == "stop":
+            out.append(("ret", _opt(1, [val]), s))
+        else:
+            out.append((kind, val, s))
+    return out
+
+
 def install():
     M = MODELS
     M["core::slice::<impl [T]>::iter"] = m_iter(False)
@@ -380,18 +706,56 @@ def install():
     M["std::iter::Iterator::take_while"] = m_lazy("take_while")
     M["std::iter::Iterator::filter"] = m_lazy("filter")
     M["std::iter::Iterator::inspect"] = m_lazy("inspect")
+    M["std::iter::Iterator::map"] = m_lazy("map")
+    M["std::iter::Iterator::zip"] = m_zip
+    M["std::iter::Iterator::find"] = m_find
+    M["std::iter::Iterator::collect"] = m_collect
+    M["core::slice::<impl [T]>::windows"] = m_windows
+    M["core::slice::<impl [T]>::iter_mut"] = m_iter(False)
+    M["<&'a mut std::vec::Vec<T, A> as std::iter::IntoIterator>::into_iter"] = m_iter(False)
+    M["core::slice::iter::<impl std::iter::IntoIterator for &'a mut [T]>::into_iter"] = m_iter(False)
+    M["std::vec::Vec::<T>::new"] = m_vec_new
+    M["std::vec::Vec::<T>::with_capacity"] = m_vec_new
+    M["std::vec::Vec::<T, A>::push"] = m_vec_push
+    M["std::vec::Vec::<T, A>::extend_from_slice"] = m_vec_extend
+    M["<std::vec::Vec<T, A> as std::iter::Extend<T>>::extend"] = m_vec_extend
+    M["<std::vec::Vec<T, A> as std::iter::Extend<&'a T>>::extend"] = m_vec_extend
+    M["std::iter::Extend::extend"] = m_vec_extend
+    M["std::vec::Vec::<T, A>::into_boxed_slice"] = interp.m_identity
+    M["std::vec::Vec::<T, A>::as_slice"] = interp.m_identity
+    M["std::vec::Vec::<T, A>::as_mut_slice"] = interp.m_identity
+    M["core::slice::<impl [T]>::into_vec"] = interp.m_identity
+    M["<std::boxed::Box<T, A> as std::ops::Deref>::deref"] = m_box_deref
+    M["<std::boxed::Box<T, A> as std::ops::DerefMut>::deref_mut"] = m_box_deref
+    for nm in ("sort_by_key", "sort_unstable_by_key", "sort_by_cached_key"):
+        M["core::slice::<impl [T]>::" + nm] = m_sort_by_key
+        M["std::slice::<impl [T]>::" + nm] = m_sort_by_key
+    M["std::iter::ExactSizeIterator::len"] = m_iter_len
+    M["std::collections::HashSet::<T>::with_capacity"] = m_set_new
+    M["std::collections::HashSet::<T, S, A>::insert"] = m_set_insert
+    M["std::collections::HashSet::<T, S, A>::contains"] = m_set_contains
+    M["std::collections::HashSet::<T>::new"] = m_set_new
+    M["std::collections::HashSet::<T, S>::insert"] = m_set_insert
+    M["std::collections::HashSet::<T, S>::contains"] = m_set_contains
+    M["std::collections::HashSet::<T, S>::reserve"] = lambda *a, **k: None
+    M["std::ptr::eq"] = m_ptr_eq
+    M["std::ptr::addr_eq"] = m_ptr_eq
     M["std::iter::Iterator::count"] = m_count
     M["std::iter::Iterator::all"] = m_all_any(True)
     M["std::iter::Iterator::any"] = m_all_any(False)
     M["std::iter::Iterator::for_each"] = m_for_each
     for n in ("std::slice::Iter<'a, T>", "std::vec::IntoIter<T, A>", "std::iter::Enumerate<I>", "std::iter::Take<I>",
               "std::iter::Rev<I>", "std::iter::Copied<I>", "std::iter::Cloned<I>", "std::iter::TakeWhile<I, P>",
-              "std::iter::Filter<I, P>", "std::iter::Inspect<I, F>", "std::iter::Skip<I>"):
+              "std::iter::Filter<I, P>", "std::iter::Inspect<I, F>", "std::iter::Skip<I>", "std::iter::Zip<A, B>",
+              "std::iter::Map<I, F>", "std::slice::Windows<'a, T>", "std::slice::IterMut<'a, T>"):
         M["<%s as std::iter::Iterator>::next" % n] = m_next
         M["<%s as std::iter::Iterator>::for_each" % n] = m_for_each
         M["<%s as std::iter::Iterator>::count" % n] = m_count
         M["<%s as std::iter::Iterator>::all" % n] = m_all_any(True)
         M["<%s as std::iter::Iterator>::any" % n] = m_all_any(False)
+        M["<%s as std::iter::Iterator>::find" % n] = m_find
+        M["<%s as std::iter::ExactSizeIterator>::len" % n] = m_iter_len
+        M["<%s as std::iter::Iterator>::collect" % n] = m_collect
     M["<std::vec::Vec<T, A> as std::ops::Index<I>>::index"] = m_index
     M["core::slice::index::<impl std::ops::Index<I> for [T]>::index"] = m_index
     M["std::vec::Vec::<T, A>::is_empty"] = m_is_empty
